@@ -73,10 +73,19 @@ CONVENTIONS = {
         "mo",
         "obasis",
         "obasis_name",
-        "run_type",
         "title",
     ],
-    ["energy", "atfrozen", "atgradient", "athessian", "atmasses", "one_rdms", "extra", "moments"],
+    [
+        "energy",
+        "atfrozen",
+        "atgradient",
+        "athessian",
+        "atmasses",
+        "one_rdms",
+        "extra",
+        "moments",
+        "run_type",
+    ],
 )
 def load_one(lit: LineIterator) -> dict:
     """Do not edit this docstring. It will be overwritten."""
